@@ -416,8 +416,9 @@ func c05PopClass(n int) string {
 // ---- generator ----
 
 type c05Gen struct {
-	rng *zz.RNG
-	ops []string
+	rng   *zz.RNG
+	ops   []string
+	twins int
 }
 
 func (g *c05Gen) emit(f string, a ...any) { g.ops = append(g.ops, fmt.Sprintf(f, a...)) }
@@ -433,6 +434,36 @@ func (g *c05Gen) anySig() [64]byte {
 	var s [64]byte
 	copy(s[:], g.rng.Bytes(64))
 	return s
+}
+
+// c05HashTwin returns a signature with prefix np (different from m's) and xxhash64(twin) == xxhash64(m): xxhash64
+// consumes a 64-byte input as two 32-byte stripes of four 8-byte lanes; lane 1 sees bytes 0..7 then bytes 32..39, so a
+// change of the prefix (bytes 0..1) is cancelled by solving for bytes 32..39:  acc' + w4'*P2 = acc + w4*P2 (mod 2^64).
+func c05HashTwin(m [64]byte, np uint16) ([64]byte, bool) {
+	var p1, p2 uint64 = 11400714785074694791, 14029467366897019727
+	if c05Prefix(m) == np {
+		return m, false
+	}
+	round := func(acc, in uint64) uint64 {
+		acc += in * p2
+		acc = acc<<31 | acc>>33
+		return acc * p1
+	}
+	inv := uint64(1) // inverse of p2 modulo 2^64 (Newton)
+	for i := 0; i < 7; i++ {
+		inv *= 2 - p2*inv
+	}
+	v1 := p1 + p2
+	t := m
+	binary.LittleEndian.PutUint16(t[:2], np)
+	acc := round(v1, binary.LittleEndian.Uint64(m[0:8]))
+	acc2 := round(v1, binary.LittleEndian.Uint64(t[0:8]))
+	w4 := binary.LittleEndian.Uint64(m[32:40])
+	binary.LittleEndian.PutUint64(t[32:40], w4+(acc-acc2)*inv)
+	if xxhash.Sum64(t[:]) != xxhash.Sum64(m[:]) {
+		return t, false
+	}
+	return t, true
 }
 
 func (g *c05Gen) metas(format string, n int) {
@@ -467,6 +498,16 @@ func (g *c05Gen) probes(op string, members [][64]byte, memberStep int, used []ui
 				c = m
 				binary.LittleEndian.PutUint16(c[:2], used[g.rng.Intn(len(used))]) // member's tail under another populated prefix
 				g.emit("%s %x", op, c)
+			}
+			// a non-member with the SAME 64-bit hash as the member under ANOTHER prefix (populated or empty): present only
+			// if some code forgets that membership is per two-byte prefix
+			np := uint16(g.rng.U64())
+			if len(used) > 0 && g.rng.Intn(2) == 0 {
+				np = used[g.rng.Intn(len(used))]
+			}
+			if tw, ok := c05HashTwin(m, np); ok {
+				g.twins++
+				g.emit("%s %x", op, tw)
 			}
 		}
 	}
@@ -648,6 +689,9 @@ func TestVerifC05(t *testing.T) {
 		g := &c05Gen{rng: zz.NewRNG(zz.Seed())}
 		g.generate(zz.Thorough())
 		ops = g.ops
+		for i := 0; i < g.twins; i++ {
+			s.Count("probe-hash-twin-other-prefix")
+		}
 	}
 	for _, op := range ops {
 		out := in.exec(op)
